@@ -20,7 +20,8 @@ import (
 //
 // Explored on the real stdlib.context (sources instrumented by cmd/instr through a build
 // overlay): every schedule of 2-3 goroutines, each performing 1-2 of
-// R(unCode) M(oduleInit with a Python body) N(=ModuleInit of a Go-only module) C(=ResolveAndCompile) X(=Close) W(ait for Done), within a
+// R(unCode) M(oduleInit with a Python body) N(=ModuleInit of a Go-only module) C(=ResolveAndCompile) X(=Close) W(ait for Done)
+// P(=RunCode whose body panics in a Go extension function; the embedder recovers), within a
 // preemption bound, checked by a monitor over the event trace.
 
 type c09mon struct {
@@ -119,8 +120,13 @@ func (m *c09mon) pollDone(done <-chan struct{}) {
 	}
 }
 
-var c09Code *py.Code
+var c09Code, c09PanicCode *py.Code
 var c09File string
+
+// c09Fault is the value an extension function panics with in operation P: the VM has no
+// recover, so the panic unwinds through RunCode into the embedder, which recovers it and
+// carries on. The execution has then finished, whatever way it ended.
+type c09Fault struct{}
 
 func c09Setup() {
 	if c09Code != nil {
@@ -128,6 +134,10 @@ func c09Setup() {
 	}
 	var err error
 	c09Code, err = py.Compile("import vh\nvh.probe(1)\nvh.probe(2)\n", "<c09>", py.ExecMode, 0, true)
+	if err != nil {
+		panic(err)
+	}
+	c09PanicCode, err = py.Compile("import vh\nvh.probe(1)\nvh.probe(3)\n", "<c09p>", py.ExecMode, 0, true)
 	if err != nil {
 		panic(err)
 	}
@@ -170,6 +180,9 @@ func c09Body(cfg [][]byte) func(x *explore.Exec) string {
 				x.Yield("probe")
 			} else {
 				mon.bodyEnd(t.ID)
+				if k == 3 {
+					panic(c09Fault{})
+				}
 			}
 			return py.None, nil
 		}
@@ -227,6 +240,20 @@ func c09Body(cfg [][]byte) func(x *explore.Exec) string {
 					case 'R':
 						g := py.StringDict{}
 						_, err = ctx.RunCode(c09Code, g, g, nil)
+					case 'P':
+						// an execution that ends by a Go panic in an extension function, recovered by the embedder
+						func() {
+							defer func() {
+								if r := recover(); r != nil {
+									if _, ok := r.(c09Fault); !ok {
+										panic(r)
+									}
+									err = py.ExceptionNewf(py.RuntimeError, "recovered fault")
+								}
+							}()
+							g := py.StringDict{}
+							_, err = ctx.RunCode(c09PanicCode, g, g, nil)
+						}()
 					case 'M':
 						name := fmt.Sprintf("m%d_%d", ti, oi)
 						impl := &py.ModuleImpl{Info: py.ModuleInfo{Name: name}, Globals: py.StringDict{}, Code: c09Code,
@@ -285,7 +312,7 @@ func c09Body(cfg [][]byte) func(x *explore.Exec) string {
 						cls = "err:" + t
 					}
 					x.Event("ret t%d %c %s", ti, op, cls)
-					if issuedAfterClose && (op == 'R' || op == 'M' || op == 'C' || op == 'N') && err == nil {
+					if issuedAfterClose && (op == 'R' || op == 'M' || op == 'C' || op == 'N' || op == 'P') && err == nil {
 						mon.fail("request-after-close-succeeded", "a %c request issued after Close had returned succeeded", op)
 					}
 					if op == 'X' && err != nil {
@@ -432,7 +459,7 @@ func cfgString(c [][]byte) string {
 func c09Run(rc *core.RunCtx) {
 	c09Setup()
 	_ = stdlib.VerifState
-	ops := "RXMNCW"
+	ops := "RXMNCWP"
 	type plan struct {
 		threads, maxLen, maxOps int
 		bounds                  []int
@@ -593,7 +620,7 @@ func init() {
 		Level:    "model_checking",
 		Mode:     "ov",
 		RacePass: true,
-		Rule: "every multiset of 2-4 goroutine programs (1-2 operations each from RunCode, ModuleInit, ResolveAndCompile, Close, wait-for-Done; at least one Close) x every schedule within the preemption bound, " +
+		Rule: "every multiset of 2-4 goroutine programs (1-2 operations each from RunCode, RunCode ending in a recovered Go panic, ModuleInit with and without a Python body, ResolveAndCompile, Close, wait-for-Done; at least one Close) x every schedule within the preemption bound, " +
 			"scheduling points at every statement of the lifecycle methods that touches lifecycle state and at every sync operation (instrumented from the current source by build overlay) and inside the running Python code. " +
 			"A case is one (configuration, bound); all are non-trivial (they contain a Close racing with something).",
 		Run: c09Run,
